@@ -8,6 +8,8 @@ CONSTANTS
   Threshold = 1
   PktLens = {1}
   ExtInfo = FALSE
+  NetCap = 1000000
+  ReleaseAfterFlush = FALSE
 INVARIANTS TypeOK K3
 PROPERTIES K4 NoStuckWriter
 CHECK_DEADLOCK FALSE
